@@ -913,8 +913,21 @@ func (h *H) actTrunc(tolerate bool) {
 	}
 	if !allAlive && !tolerate {
 		rn.VerifSetTolerateStart(0)
-		_ = rn.VerifDeleteEntryLog() // "replica group status is unhealthy": nothing is proposed
+		_ = rn.VerifDeleteEntryLog() // "replica group status is unhealthy": nothing may be proposed
 		h.c.Count("trunc-refused")
+		h.settle()
+		if h.err == nil && h.cl.nodes[l].observe().last > uint64(len(h.clog)) {
+			// it did propose: go on as if the tolerate time were over, and say so
+			pr := rn.VerifStatus().Progress
+			var ms []string
+			for i := 0; i < h.n; i++ {
+				ms = append(ms, fmt.Sprintf("%d:%d", i, pr[raftconn.GetRaftNodeId(uint32(i))].Match))
+			}
+			line := h.emit(fmt.Sprintf("trunc 1 %s", strings.Join(ms, ",")))
+			h.infl = append(h.infl, infl{kind: "clear", prop: l})
+			h.violation(line, "truncation_before_tolerate_time", "deleteEntryLog proposed a truncation although a member is not alive and the tolerate time is not over | "+strings.Join(h.log, " ; "))
+			h.after("trunc (not allowed yet)")
+		}
 		return
 	}
 	if !allAlive {
@@ -1017,8 +1030,11 @@ func (h *H) actElect() {
 		h.fail("UpdateReplication: %v", err)
 		return
 	}
-	h.emit("elect")
+	line := h.emit("elect")
 	h.c.Count("elect")
+	if h.pts()[nm].Status != meta2.Online {
+		h.violation(line, "elected_master_not_online", fmt.Sprintf("electRgMaster chose partition %d, which is not online | %s", nm, strings.Join(h.log, " ; ")))
+	}
 	h.after(fmt.Sprintf("elect -> master %d", nm))
 }
 
